@@ -104,6 +104,8 @@ class C15(Check):
                     k += 1
                     if self.tier == "quick" and k % 12 != (self.seed + len(planted[0][1])) % 12:
                         continue
+                    if self.tier == "thorough" and k % 3 != (self.seed + len(planted[0][1])) % 3:
+                        continue
                     yield (f"+{j} lowq {op}@{pos}", (wk, planted, dv, th, ((pos, op, j, qq),)))
 
     def evaluate(self, st):
